@@ -42,6 +42,13 @@ theorem isimip_unbounded_flags_generated :
     Gen.Config.has_bound .negInf .negInf .posInf .posInf = false ∧
     Gen.Config.has_threshold .negInf .negInf .posInf .posInf = false := by decide
 
+/-- **`_from_variable` builds its constructor arguments as a fresh dict literal** from the general settings, the variable
+    settings and the keyword arguments, in this order (later entries win) — the shape `Model.FromVariable.params` has; an
+    implementation that updates one of the tables in place has a different literal (tier A: regenerated from the source) -/
+theorem from_variable_builds_fresh_dict :
+    Gen.Config.fromVariableShape.mergeOrder
+      = ["variable", "reasonable_physical_range", "**default_settings_general", "**variable_settings", "**kwargs"] := by decide
+
 -- non-vacuity of the first statement: a pr-like configuration has a lower threshold, in the model and in the generated text
 example : Gen.Config.has_lower_threshold (.fin 0) (.fin (1 / 10)) .posInf .posInf = true := by decide +kernel
 
